@@ -23,6 +23,7 @@ pub fn run(prop: &str, sk: &Skeleton) -> Leaf {
         "C07" => report::c07(sk),
         "C08" => fx::c08(sk),
         "C13parse" => text::c13_parse(sk),
+        "SHIM" => text::shim_probe(sk),
         #[cfg(cgt_verif)]
         "C16" => order::c16(sk),
         "C14" => text::c14(sk),
